@@ -2431,9 +2431,13 @@ impl<'a, T, L: Layout> TensorBase<ViewMutData<'a, T>, L> {
         let (left, right) = self.layout.split(axis, mid);
         let (left_offset_range, left_layout) = left;
         let (right_offset_range, right_layout) = right;
-        let (left_data, right_data) = self
-            .data
-            .split_mut(left_offset_range.clone(), right_offset_range.clone());
+        // Safety: The left and right layouts map to disjoint sets of offsets
+        // within their respective ranges, since `self.layout` has no internal
+        // overlap.
+        let (left_data, right_data) = unsafe {
+            self.data
+                .split_mut(left_offset_range.clone(), right_offset_range.clone())
+        };
 
         debug_assert_eq!(left_data.len(), left_layout.min_data_len());
         let left_view = TensorBase {
